@@ -713,7 +713,9 @@ var (
 // a deadline extension or a nack sent on the stream is not an acknowledgement
 func streamOffered(t *testing.T, st *Stats) {
 	// the push path is a consumer too: messages the endpoint refused keep being offered
-	for _, mix := range [][2]int{{6, 0}, {3, 3}} {
+	// (how many of the simultaneous answers the pusher finds queued when it looks is up to the scheduler:
+	// several batch sizes, the larger ones leave it no room to see them one by one)
+	for _, mix := range [][2]int{{6, 0}, {3, 3}, {14, 0}, {9, 5}, {6, 0}} {
 		what := pushBatchOutcome(t, Seed(), mix[0], mix[1])
 		st.Count("push_batch_cases", 1)
 		if what != "" && !strings.HasPrefix(what, "setup:") {
